@@ -180,3 +180,47 @@ func H_C18_nativeBand() {
 	observe("hits", uint64(hits))
 	vassert(hits > 0, "C18: no value of the top bit band in 400000 draws (unreachable value band)")
 }
+
+// twoChecks runs the real checkTB twice under one test name without -rapid.seed and returns the
+// first word each run's first test case drew.
+func twoChecks() (uint64, uint64, bool) {
+	flags.seed = 0
+	flags.checks = 1
+	flags.nofailfile = true
+	flags.shrinkTime = 0
+	// the property always passes: it only records the first word of each test case
+	var w1, w2 []uint64
+	runIsolated(func() { checkTB(newVTB("Fresh"), farDeadline(), func(t *T) { w1 = append(w1, t.s.drawBits(64)) }) })
+	runIsolated(func() { checkTB(newVTB("Fresh"), farDeadline(), func(t *T) { w2 = append(w2, t.s.drawBits(64)) }) })
+	if len(w1) == 0 || len(w2) == 0 {
+		return 0, 0, false
+	}
+	return w1[0], w2[0], true
+}
+
+// H_C18_freshChecks: two Check calls of the same test in one process are not forced to explore
+// the same sequence: the solver must find an environment (entropy source) in which their first
+// test cases differ. If it cannot, every Check of that test repeats a fixed sequence.
+func H_C18_freshChecks() {
+	a, b, ok := twoChecks()
+	vassert(ok, "C18: Check ran no test case")
+	if a != b {
+		reach("two-checks-can-differ")
+	}
+	if a != 12345 {
+		reach("not-a-constant")
+	}
+}
+
+// H_C18_nativeFresh (native confirmation for H_C18_freshChecks): real Check pairs, real entropy.
+func H_C18_nativeFresh() {
+	if symbolic() {
+		return
+	}
+	differ := false
+	for i := 0; i < 4; i++ {
+		a, b, ok := twoChecks()
+		differ = differ || (ok && a != b)
+	}
+	vassert(differ, "C18: two Check calls of one test in one process explore the same test cases (no fresh seed)")
+}
